@@ -12,12 +12,14 @@ def build(asm, tier):
     asm.file('prelude/anyhow_model.rs')
     asm.file('prelude/std_helpers.rs')
     asm.file('prelude/btree_entry.rs')
+    asm.file('prelude/vmap_model.rs')
     asm.raw(common.ZERO_TRAIT)
     t, enums = v1types.v1_module(asm.rules)
     asm.extracted(t, 'ommx.v1.rs message types')
     asm.file('spec/poly_value.rs')
     asm.file('spec/merge_spec.rs')
     asm.file('spec/kmerge_spec.rs')
+    asm.file('spec/padd_spec.rs')
     asm.raw(al.leaf_spec_text(), 'generated remainder definitions')
     asm.file('spec/lmul_spec.rs')
     asm.file('spec/fn_algebra.rs')
@@ -26,10 +28,10 @@ def build(asm, tier):
     asm.raw(al.VAR_SPEC, 'variables / parameters as operands')
     asm.raw('} // mod lib\npub mod units {\n' + common.UNITS_USES + 'broadcast use super::lib::ax_default_f64, super::lib::ax_pair_u64_cmp;\n')
     stubs, names = al.leaf_stubs()
-    asm.raw(stubs + al.MERGE_STUBS, 'assumed callee contracts (BTreeMap-merge leaves)')
+    asm.raw(stubs + al.MERGE_STUBS + al.PMERGE_STUBS, 'assumed callee contracts (BTreeMap-merge leaves)')
     for n in names:
         asm.stubs.append(dict(unit=n, proved_in=''))
-    for u in al.zero_linear() + al.zero_quadratic_polynomial() + al.from_units() + [al.linear_add_f64(), al.linear_mul_f64(), al.quadratic_add_f64(), al.quadratic_mul_f64(), al.polynomial_mul_f64(), al.function_add(), al.function_mul(), al.linear_add_linear(), al.linear_new(), al.quadratic_add_linear(), al.quadratic_quad_iter(), al.quadratic_from_iter(), al.quadratic_add_quadratic(), al.linear_mul_linear()] + al.macro_units() + al.typed_macro_units() + [io_single_term()] + al.var_units():
+    for u in al.zero_linear() + al.zero_quadratic_polynomial() + al.from_units() + [al.linear_add_f64(), al.linear_mul_f64(), al.quadratic_add_f64(), al.quadratic_mul_f64(), al.polynomial_mul_f64(), al.function_add(), al.function_mul(), al.linear_add_linear(), al.linear_new(), al.quadratic_add_linear(), al.quadratic_quad_iter(), al.quadratic_from_iter(), al.quadratic_add_quadratic(), al.linear_mul_linear(), al.polynomial_add_polynomial()] + al.macro_units() + al.typed_macro_units() + [io_single_term()] + al.var_units():
         asm.unit(u)
     asm.raw('} // mod units\n')
     asm.guard(common.guard_fn('c02', '', uses='use super::lib::*;'), 'vacuity: prelude')
